@@ -136,7 +136,7 @@ SolveResult minimize(auto && f, auto && x, auto && cb, const MinimizeOptions & o
     }
 
     // step
-    if (r_n == 0 || pred_red <= 0 || take_step) {
+    if (r_n == 0 || (pred_red <= 0 && actu_red >= 0) || take_step) {
       x = xp;
 
       // execute callback on updated value
